@@ -256,7 +256,7 @@ def run(ctx):
                           impl=framed.hex())
     res['scopes']['frame_calls'] = 300
     # (b) generated
-    ngen = 60000 if ctx.deep else 5000
+    ngen = (400000 if ctx.tier == 'thorough' else 60000) if ctx.deep else 5000
     gen = [random_case(rng) for _ in range(ngen)]
     modes = [rng.randrange(3) for _ in gen]
     outs = evaluate(ctx, gen, modes, res)
@@ -265,7 +265,7 @@ def run(ctx):
         res.sample({'case': _fmt_case(l, c), 'impl': _fmt_out(o)})
     # (c) exhaustive small scopes, smallest first; stop growing once something failed
     limits = (0, 1, 2, 3, 4)
-    maxlen = 9 if ctx.deep else 7
+    maxlen = (10 if ctx.tier == 'thorough' else 9) if ctx.deep else 7
     done = -1
     for n in range(0, maxlen + 1):
         if res.failed and n > 5:
